@@ -501,6 +501,7 @@ func runC11(c *Ctx) {
 	}()
 
 	ruleConnChannel(c, p, "C11.conn-channel")
+	ruleWhoCloses(c, p, "C11.who-closes")
 
 	// ---- C11.factory
 	rule = "C11.factory"
